@@ -416,6 +416,13 @@ def exhaustive_valid_cases(ctx: Ctx):
                 parts[-1] = misspell(r, key.split(".")[-1])
             cases.append(dict(op="set", det=det, pipe=pipe, key=".".join(parts), kind="misspelt_last", field=field, cls=cls,
                               value=jv(3), path=r.choice(["set", "override"]), ignore=[]))
+            if det == "ccd":
+                # everything right but one junk component before the last one (inside a dict for the items of a
+                # dict-valued argument): has, set and get must all refuse
+                parts = key.split(".")
+                parts.insert(len(parts) - 1, r.choice(["zz", "x", "item"]))
+                cases.append(dict(op="set", det=det, pipe=pipe, key=".".join(parts), kind="inserted_component", field=field,
+                                  cls=cls, value=jv(3), path="set", ignore=[]))
     return cases
 
 
@@ -825,7 +832,7 @@ def set_violation(c, o, clause_n) -> Violation:
     clause = CLAUSES[clause_n]
     sig = dict(clause=clause, landing=landing, target=target)
     case = {k: c[k] for k in ("op", "det", "pipe", "key", "value", "path", "ignore", "kind", "via", "field", "cls") if k in c}
-    if clause_n >= 6:
+    if clause_n in (6, 7, 8):
         sig["shared"] = "yes" if o.get("shared") else "no"
         obs = dict(set=o["set"], shared_objects=o.get("shared"),
                    changed=_diff_trees(o["before"], {6: o["orig_after"], 7: o["sib_after"], 8: o["later"]}[clause_n])[:6])
